@@ -15,7 +15,7 @@ import (
 // C02 — everything an endpoint emits is a conformant RFC 6455 / 7692 stream.
 
 func init() {
-	register(&Prop{ID: "C02", Run: runC02, Quick: 20000, Thorough: 200000, Level: "exploration"})
+	register(&Prop{ID: "C02", Run: runC02, Quick: 20000, Thorough: 1000000, Level: "exploration"})
 }
 
 type wActor struct {
